@@ -797,6 +797,18 @@ func (x *Exec) compileCall(env *Env, e *SCall) Value {
 			return a
 		}
 		env.fail("string() of %s", a.Ty)
+	case "srune", "srunelen":
+		// the rune decoded at byte i of a string (as range-over-string decodes it), and its width
+		a, i := argTV(0), argTV(1)
+		if a.T.Sort != SStr {
+			env.fail("%s needs a string", e.Fun)
+		}
+		x.declareFun("runeAt", "(declare-fun runeAt (Str Int) Int)")
+		x.declareFun("runeLen", "(declare-fun runeLen (Str Int) Int)")
+		if e.Fun == "srune" {
+			return TV{App("runeAt", SInt, a.T, i.T), types.Typ[types.Int32]}
+		}
+		return TV{App("runeLen", SInt, a.T, i.T), tInt}
 	case "runeAt", "runeLen":
 		// the rune decoded at byte i of a byte slice (utf8.DecodeRune(s[i:])), and its width
 		a, i := argTV(0), argTV(1)
